@@ -162,7 +162,7 @@ struct World
         const Problem<DIM> &p = m.prob;
         for (int i = 0; i < L.N; ++i)
         {
-            double T = mode == 1 ? (0.5 + 0.0371 * (i + 1) + 0.2 * r.unit()) : p.T[i] * std::exp(r.real(-0.2, 0.2));
+            double T = mode == 1 ? (0.5 + 0.0371 * (i + 1) + 0.2 * r.unit()) : p.T[i] * std::exp(mode == 4 ? 0.0 * r.unit() : r.real(-0.2, 0.2));
             double tau = tm.toTau(T);
             // keep clear of the switch point of the bundled time map (finite differences need smoothness)
             if (!kSimMaps && std::fabs(tau) < 0.02) tau = tau < 0 ? -0.02 : 0.02;
@@ -172,13 +172,13 @@ struct World
         {
             Eigen::VectorXd xi = sm.toUnconstrained(Eigen::VectorXd(p.P.row(pt.index).transpose()), pt.index);
             for (int d = 0; d < pt.dof; ++d)
-                x(pt.offset + d) = mode == 1 ? (1.0 + 0.013 * (pt.offset + d) + 0.001 * r.unit()) : xi(d) + r.real(-0.3, 0.3);
+                x(pt.offset + d) = mode == 1 ? (1.0 + 0.013 * (pt.offset + d) + 0.001 * r.unit()) : xi(d) + (mode == 4 ? 0.0 * r.unit() : r.real(-0.3, 0.3));
         }
         int off = L.deriv_offset;
         for (int f : L.deriv_fields)
         {
             const Vec &v = bc_field<DIM>(p.bc, f);
-            for (int d = 0; d < DIM; ++d) x(off + d) = mode == 1 ? (-2.0 - 0.017 * (off + d) - 0.001 * r.unit()) : v(d) + r.real(-0.3, 0.3);
+            for (int d = 0; d < DIM; ++d) x(off + d) = mode == 1 ? (-2.0 - 0.017 * (off + d) - 0.001 * r.unit()) : v(d) + (mode == 4 ? 0.0 * r.unit() : r.real(-0.3, 0.3));
             off += DIM;
         }
         if (mode == 2 && !kSimMaps && ORDER == 3 && std::is_same<TM, SplineTrajectory::QuadInvTimeMap>::value)
@@ -188,6 +188,13 @@ struct World
             int j = (int)r.below((uint64_t)L.N);
             x(j) = -44.0 - 16.0 * r.unit();
             if (RunCtx *c = cur_ctx()) c->count("probe.extreme_time_variable");
+        }
+        if (mode == 5)
+        {
+            // one segment far below the millisecond the validity rule asks of the *reference* (decision values are free)
+            int j = (int)r.below((uint64_t)L.N);
+            x(j) = tm.toTau(r.real(2e-4, 9e-4));
+            if (RunCtx *c = cur_ctx()) c->count("probe.sub_millisecond_duration");
         }
         if (mode == 3)
         {
@@ -284,6 +291,8 @@ struct World
         const auto &C = spl.getTrajectory().getCoefficients();
         SIM_CHECK(bitwise_equal(C, fresh->getTrajectory().getCoefficients()), "workspace_spline",
                   "the workspace spline after evaluate is not the spline of the decoded durations/waypoints/boundary states");
+        SIM_CHECK(bitwise_equal_vec(spl.getTrajectory().getBreakpoints(), fresh->getCumulativeTimes()) && same_bits(spl.getStartTime(), fresh->getStartTime()),
+                  "workspace_spline_times", "the workspace spline after evaluate has other knot times than the spline of the decoded durations and the configured start time");
         long double total = (long double)tr.time_cost, mag = fabsl((long double)tr.time_cost);
         long double tstart = (long double)q.t0;
         long double tsum_abs = fabsl((long double)q.t0);
@@ -403,9 +412,30 @@ struct World
             long double tol = 2e-5L * (fabsl(fd[k]) + 0.1L * gmax) + 4e3L * (long double)DBL_EPSILON * cabs / step[k];
             double ratio = (double)(err / tol);
             if (ratio > worst) { worst = ratio; worst_k = k; }
+            if (err > tol && std::getenv("STSIM_DEBUG_MARGIN"))
+                for (double f : {4.0, 1.0, 0.25, 1.0 / 16, 1.0 / 256, 1.0 / 4096})
+                {
+                    double hh = (double)step[k] * f;
+                    y(k) = x(k) + hh; long double cp = cost_at(y);
+                    y(k) = x(k) - hh; long double cm = cost_at(y);
+                    y(k) = x(k);
+                    fprintf(stderr, "  FDDBG k=%d x=%.6g h=%.3g D=%.10g cp=%.12Lg cm=%.12Lg analytic=%.10g\n", k, x(k), hh, (double)((cp - cm) / (2 * hh)), cp, cm, got.grad(k));
+                }
             SIM_CHECK(err <= tol, "gradient_vs_finite_difference",
                       "gradient entry " << k << " of " << n << " (N=" << N << ", flags " << m.mask << ", rho " << m.rho << ", K " << m.K << "): analytic " << got.grad(k)
                                         << " but Richardson central differences of the returned cost give " << (double)fd[k] << " |err|/tol " << ratio);
+        }
+        if (worst > 1.0 && std::getenv("STSIM_DEBUG_MARGIN"))
+        {
+            int k = worst_k;
+            for (double f : {4.0, 1.0, 0.25, 1.0 / 16, 1.0 / 256})
+            {
+                double hh = (double)step[k] * f;
+                y(k) = x(k) + hh; long double cp = cost_at(y);
+                y(k) = x(k) - hh; long double cm = cost_at(y);
+                y(k) = x(k);
+                fprintf(stderr, "  FDDBG k=%d x=%.6g h=%.3g D=%.10g cp=%.12Lg cm=%.12Lg\n", k, x(k), hh, (double)((cp - cm) / (2 * hh)), cp, cm);
+            }
         }
         if (worst > 1e-2 && std::getenv("STSIM_DEBUG_MARGIN"))
             fprintf(stderr, "MARGIN fd worst=%.3g k=%d n=%d N=%d order=%d dim=%d mask=%d rho=%g K=%d g=%.8g fd=%.8g gmax=%.3g cost=%.3g step=%.3g uses=%u\n", worst, worst_k, n, N,
@@ -506,6 +536,8 @@ struct World
         std::unique_ptr<Spline> fresh = prob::make_spline<Spline, DIM>(q);
         SIM_CHECK(bitwise_equal(sp->getTrajectory().getCoefficients(), fresh->getTrajectory().getCoefficients()), "exposed_spline",
                   "the exposed spline is not the spline defined by the decision vector");
+        SIM_CHECK(bitwise_equal_vec(sp->getTrajectory().getBreakpoints(), fresh->getCumulativeTimes()) && bitwise_equal_vec(sp->getCumulativeTimes(), fresh->getCumulativeTimes()),
+                  "exposed_spline_times", "the exposed spline's knot times are not start time + decoded durations");
         ctx.count("oracle.exposed_spline");
     }
 };
